@@ -265,6 +265,37 @@ fn enc_scalar(ty: &str, bits: u64) -> Value {
     }
 }
 
+/// A line `//@module <name>` starts the source of the sub-module `pkg.<name>`; everything before the first
+/// such line is the root module.
+fn file_tree(src: &str) -> FileTree {
+    if !src.contains("//@module ") {
+        return FileTree::test_file("sem.roto", src, 0);
+    }
+    let mut parts: Vec<(String, String)> = vec![("pkg".into(), String::new())];
+    for line in src.lines() {
+        if let Some(name) = line.strip_prefix("//@module ") {
+            parts.push((name.trim().to_string(), String::new()));
+        } else {
+            let cur = parts.last_mut().unwrap();
+            cur.1.push_str(line);
+            cur.1.push('\n');
+        }
+    }
+    let n = parts.len();
+    let mut files: Vec<roto::SourceFile> = parts
+        .into_iter()
+        .map(|(path, contents)| roto::SourceFile {
+            name: format!("sem/{path}.roto"),
+            module_name: path,
+            contents,
+            location_offset: 0,
+            children: Vec::new(),
+        })
+        .collect();
+    files[0].children = (1..n).collect();
+    FileTree { files }
+}
+
 fn main() {
     let args = parse_args();
     let rt = runtime();
@@ -275,7 +306,7 @@ fn main() {
         let want_mir = case.get("mir").and_then(|b| b.as_bool()).unwrap_or(false);
         // C03 (static part): the MIR the compiler emits for this script, as JSON
         let mir: Value = if want_mir {
-            match roto::verif::mir_json(FileTree::test_file("sem.roto", src, 0), &rt) {
+            match roto::verif::mir_json(file_tree(src), &rt) {
                 Ok(j) => serde_json::from_str(&j).unwrap_or(Value::Null),
                 Err(_) => Value::Null,
             }
@@ -286,7 +317,7 @@ fn main() {
             return json!({"compile": if mir.is_null() { "err" } else { "ok" }, "mir": mir, "calls": []});
         }
         // C20: lower once; the evaluator borrows the lowered program, codegen consumes it
-        let lowered = match roto::verif::lower(FileTree::test_file("sem.roto", src, 0), &rt) {
+        let lowered = match roto::verif::lower(file_tree(src), &rt) {
             Ok(l) => l,
             Err(e) => {
                 let kinds = roto::verif::report_kinds(&e);
